@@ -63,12 +63,12 @@ HARNESSES.append(dict(
 HARNESSES.append(dict(
     name="hkdf_label", src="hkdf.c", renames={"crypto/digest/hkdf.c": ["psHkdfExpand"]}, checks=COMMON["MEMCHECKS"], units=["crypto/common/alg_info.c"],
     functions=["psHkdfExpandLabel", "psDynBufInit", "psDynBufAppendTlsVector", "psDynBufDetachPsSize"], sources=["crypto/digest/hkdf.c", "core/src/psbuf.c"],
-    assumptions=["hkdf_label: psHkdfExpand is a logging stub; label 1..8 bytes, context 0..8 bytes, any 16-bit length; dynamic buffers over the static-pool heap model (allocation succeeds)"],
+    assumptions=["hkdf_label: psHkdfExpand is a logging stub; label / context lengths enumerated ((1,0) (8,8) (5,3) (6,1) (8,0)), contents and the 16-bit length arbitrary; dynamic buffers over the static-pool heap model (allocation succeeds)"],
     undefined_ok="*", unwind=70, cbmc_flags=["--object-bits", "11"],
-    cases=[dict(name="any", defs={"VF_OP": 1})]))
+    cases=[dict(name="l%d_c%d" % (l, c), defs={"VF_OP": 1, "VF_LL": l, "VF_CL": c}) for l, c in ((1, 0), (8, 8), (5, 3), (6, 1), (8, 0))]))
 PROPERTY = dict(level='model_checking',
-    claim='Modulo the compression/block functions (logging stubs): digest buffering, padding and length encoding (inductive step covering every split), HMAC per RFC 2104 incl. long keys, GCM CTR/GHASH streaming core independent of the split; HKDF-Expand per RFC 5869 (block inputs T(k-1) || info || k, OKM = prefix of the concatenation) for every length 0..70.',
+    claim='Modulo the compression/block functions (logging stubs): digest buffering, padding and length encoding (inductive step covering every split), HMAC per RFC 2104 incl. long keys, GCM CTR/GHASH streaming core independent of the split; HKDF-Expand per RFC 5869 (block inputs T(k-1) || info || k, OKM = prefix of the concatenation) for every length 0..70; HKDF-Expand-Label hands Expand exactly the RFC 8446 7.1 HkdfLabel encoding (length, tls13-prefixed label, context).',
     bounds='every enumerated (curlen, n) pair of the quick set (thorough: all 64x131 for SHA-256), key lengths around the block size, GCM lengths <= 37',
-    outside='the compression functions, AES, GHASH multiplication, ChaCha20-Poly1305, HKDF-Extract and the TLS 1.3 label encoding, PBKDF2, CBC modes; lengths beyond the bounds',
-    explanation='Modulo the compression/block functions (logging stubs): digest buffering, padding and length encoding (inductive step covering every split), HMAC per RFC 2104 incl. long keys, GCM CTR/GHASH streaming core independent of the split; HKDF-Expand per RFC 5869 (block inputs T(k-1) || info || k, OKM = prefix of the concatenation) for every length 0..70.',
+    outside='the compression functions, AES, GHASH multiplication, ChaCha20-Poly1305, HKDF-Extract, PBKDF2, CBC modes; lengths beyond the bounds',
+    explanation='Modulo the compression/block functions (logging stubs): digest buffering, padding and length encoding (inductive step covering every split), HMAC per RFC 2104 incl. long keys, GCM CTR/GHASH streaming core independent of the split; HKDF-Expand per RFC 5869 (block inputs T(k-1) || info || k, OKM = prefix of the concatenation) for every length 0..70; HKDF-Expand-Label hands Expand exactly the RFC 8446 7.1 HkdfLabel encoding (length, tls13-prefixed label, context).',
     assumptions=[])
